@@ -91,9 +91,13 @@ var wraps = map[string]struct {
 	strOnly  bool   // only defined for plain strings (concatenation)
 	pre, suf string // text added around the payload (escaped with it)
 }{
-	"empty+E":    {func(e string) string { return `"" + ` + e }, true, "", ""},
-	"E+empty":    {func(e string) string { return e + ` + ""` }, true, "", ""},
-	"q+E+r":      {func(e string) string { return `"<q>" + ` + e + ` + "&r"` }, true, "<q>", "&r"},
+	"empty+E": {func(e string) string { return `"" + ` + e }, true, "", ""},
+	"E+empty": {func(e string) string { return e + ` + ""` }, true, "", ""},
+	"q+E+r":   {func(e string) string { return `"<q>" + ` + e + ` + "&r"` }, true, "<q>", "&r"},
+	// a string concatenated with a TRUSTED value is still a string (C06: string + x concatenates the printed form of x)
+	"E+raw":      {func(e string) string { return e + ` + raw("<i>&")` }, true, "", "<i>&"},
+	"E+htmlvar":  {func(e string) string { return e + ` + trusted` }, true, "", "<em>T</em>"},
+	"lit+E+raw":  {func(e string) string { return `"a&" + ` + e + ` + raw("<u>")` }, true, "a&", "<u>"},
 	"[E][0]":     {func(e string) string { return "[" + e + "][0]" }, false, "", ""},
 	"[x,E][1]":   {func(e string) string { return `["x", ` + e + "][1]" }, false, "", ""},
 	`{k:E}["k"]`: {func(e string) string { return "{k: " + e + `}["k"]` }, false, "", ""},
@@ -124,7 +128,8 @@ func mkData(p, tag string, partials map[string]string) map[string]interface{} {
 		v = htmler{p}
 	}
 	return map[string]interface{}{
-		"p": v, "st": outer{F: p, H: template.HTML(p), Hr: htmler{p}, In: in, P: &in}, "pst": &outer{F: p, H: template.HTML(p), Hr: htmler{p}, In: in, P: &in},
+		"trusted": template.HTML("<em>T</em>"),
+		"p":       v, "st": outer{F: p, H: template.HTML(p), Hr: htmler{p}, In: in, P: &in}, "pst": &outer{F: p, H: template.HTML(p), Hr: htmler{p}, In: in, P: &in},
 		"sts": []outer{{F: "zero"}, {F: p, H: template.HTML(p), Hr: htmler{p}}},
 		"ms":  map[string]string{"k": p}, "mi": map[string]interface{}{"k": v},
 		"ss": []string{"s0", p}, "si": []interface{}{"i0", v}, "as": [2]string{"a0", p},
@@ -306,7 +311,7 @@ func build(c Case) (src string, partials map[string]string, parts []match.Part, 
 		parts = append(append(payloadParts(), match.L("|[")), append(payloadParts(), append([]match.Part{match.L("[")}, payloadParts()...)...)...)
 	case "let at top then in block":
 		sb.WriteString("<% let held = " + e + " %><%= blk() { %><%= if (held) { %>[<%= held %>]<% } %><% } %>")
-		if p == "" && pre == "" && c.Tag != "htmler" { // an empty string / empty HTML is falsy, an HTMLer struct is not
+		if p == "" && pre == "" && suf == "" && c.Tag != "htmler" { // an empty string / empty HTML is falsy, an HTMLer struct is not
 			parts = nil
 		} else {
 			parts = around("[", payloadParts(), "]")
@@ -355,7 +360,7 @@ func check(r *vk.Run, c Case) *vk.Fail {
 	return nil
 }
 
-const rule = "payload strings (20 fixed hostile payloads; random payloads over the five specials, entity and tag look-alikes, quotes, multi-byte, combining and invalid bytes) x type tag {plain string, template.HTML, HTMLer, raw()} x base (context variable, literal, struct / pointer / nested / pointer-in-struct field, slice of structs, map[string]string, map[string]interface{}, []string / []interface{} / [2]string element, helpers returning string / interface{} / HTML / HTMLer, method) x up to 4 wraps (\"\"+E, E+\"\", q+E+r, [E][0], [x,E][1], {k:E}[\"k\"], Go helper, user function, user function with if/return, parentheses, let) x sink (top, if, else, loop variable, loop with key, array emitted whole, array with neighbours, function body, function return, block helper, block helper in if, contentFor+contentOf twice, contentOf data, partial data, partial data with layout, nested partial data, if in for in function, let then block, return inside an emitted if, return inside a loop body) plus whole-collection sinks ([]string, []interface{} emitted whole; for over []string, []interface{}, [2]string, map[string]string, slice of structs). (E) every base x sink with no wrap, every single wrap x sink from a variable, for all fixed payloads and tags; (R) random compositions to depth 4. Oracle: entity-decoding matcher over the whole output: plain payloads only entity-encoded and decoding back to the payload, trusted payloads byte-identical, each exactly once. Non-trivial = payload contains a special and the route is not the bare variable at top level; distinct by (route, tag, payload)."
+const rule = "payload strings (20 fixed hostile payloads; random payloads over the five specials, entity and tag look-alikes, quotes, multi-byte, combining and invalid bytes) x type tag {plain string, template.HTML, HTMLer, raw()} x base (context variable, literal, struct / pointer / nested / pointer-in-struct field, slice of structs, map[string]string, map[string]interface{}, []string / []interface{} / [2]string element, helpers returning string / interface{} / HTML / HTMLer, method) x up to 4 wraps (\"\"+E, E+\"\", q+E+r, E+raw(..), E+trusted variable, lit+E+raw(..), [E][0], [x,E][1], {k:E}[\"k\"], Go helper, user function, user function with if/return, parentheses, let) x sink (top, if, else, loop variable, loop with key, array emitted whole, array with neighbours, function body, function return, block helper, block helper in if, contentFor+contentOf twice, contentOf data, partial data, partial data with layout, nested partial data, if in for in function, let then block, return inside an emitted if, return inside a loop body) plus whole-collection sinks ([]string, []interface{} emitted whole; for over []string, []interface{}, [2]string, map[string]string, slice of structs). (E) every base x sink with no wrap, every single wrap x sink from a variable, for all fixed payloads and tags; (R) random compositions to depth 4. Oracle: entity-decoding matcher over the whole output: plain payloads only entity-encoded and decoding back to the payload, trusted payloads byte-identical, each exactly once. Non-trivial = payload contains a special and the route is not the bare variable at top level; distinct by (route, tag, payload)."
 
 func setup(t *testing.T) *vk.Run {
 	r := vk.Start(t, "C01", rule,
@@ -428,7 +433,7 @@ func TestProp(t *testing.T) {
 			}
 		}
 	}
-	r.Subspace(fmt.Sprintf("%d payloads x 4 tags x (17 bases + 12 single wraps) x 20 sinks + 7 whole-collection sinks (inapplicable combinations counted under excluded)", len(payloads)), int64(len(cases)), true)
+	r.Subspace(fmt.Sprintf("%d payloads x 4 tags x (17 bases + 15 single wraps) x 20 sinks + 7 whole-collection sinks (inapplicable combinations counted under excluded)", len(payloads)), int64(len(cases)), true)
 	r.Parallel(int64(len(cases)), 0, func(i int64) { r.Check(check(r, cases[i])) })
 
 	r.Rapid("compositions", r.Pick(8000, 100000), func(t *rapid.T) *vk.Fail {
